@@ -103,6 +103,7 @@ type ContractDB struct {
 	ghosts   map[string]Sort
 	lockinvs map[string]*Clause // "pkg.Type.field" -> invariant over `this`
 	protects map[string]string
+	wgorders map[string]*Clause
 	protectList []*Protect
 	protectH    map[string]*Protect // by heap name, resolved lazily
 	nonnull  []string // heap designators whose loaded values are never nil (trusted type invariants)
@@ -293,7 +294,7 @@ func (db *ContractDB) loadFile(path, pkg string) error {
 	// join continuation lines: a line that does not start with a keyword
 	// continues the previous one
 	topKw := map[string]bool{"func": true, "loop": true, "pure": true, "abstract": true, "ghost": true, "method": true, "functype": true,
-		"extern": true, "lockinv": true, "protect": true, "axiom": true, "lemma": true, "wgres": true, "nonnull": true, "predicate": true}
+		"extern": true, "lockinv": true, "protect": true, "axiom": true, "lemma": true, "wgres": true, "wgorder": true, "nonnull": true, "predicate": true}
 	var joined []string
 	for _, l := range lines {
 		w := strings.Fields(l)[0]
@@ -378,6 +379,18 @@ func (db *ContractDB) loadFile(path, pkg string) error {
 				return err
 			}
 			db.lockinvs[strings.TrimSpace(rest[:i])] = &Clause{Kind: "lockinv", Text: strings.TrimSpace(rest[i+1:]), Expr: ex}
+		case "wgorder":
+			// wgorder pkg.Type.field : expr over `this` - must hold at every Add(positive) on that WaitGroup
+			i := strings.Index(rest, ":")
+			ex, err := parseSpecExpr(rest[i+1:])
+			if err != nil {
+				return err
+			}
+			if db.wgorders == nil {
+				db.wgorders = map[string]*Clause{}
+			}
+			db.wgorders[strings.TrimSpace(rest[:i])] = &Clause{Kind: "wgorder", Text: strings.TrimSpace(rest[i+1:]), Expr: ex}
+			db.scan = append(db.scan, "wgorder "+rest)
 		case "nonnull":
 			db.nonnull = append(db.nonnull, rest)
 			db.scan = append(db.scan, "nonnull "+rest)
